@@ -7,6 +7,8 @@ import SfntV.Model.OtlFeatureList
 import SfntV.Model.OtlGdef
 import SfntV.Model.OtlScriptList
 import SfntV.Model.OtlGtab
+import SfntV.Model.OtlGposMark
+import SfntV.Model.OtlContext
 
 namespace SfntV.Drive.Otl
 open SfntV SfntV.Otl
@@ -204,6 +206,9 @@ def showSub : Gsub.Sub → String
   | .s12 cov subs => s!"1.2;cov={showPairs (sortPairs cov)};subs={natsToString subs}"
   | .seq tp cov seqs => s!"{tp}.1;cov={showPairs (sortPairs cov)};seqs={showSeqs seqs}"
   | .s41 cov repl => s!"4.1;cov={showPairs (sortPairs cov)};ligs={showLigSets repl}"
+  | .s81 r =>
+    let covs := fun (l : List (List (Nat × Nat))) => "/".intercalate (l.map fun c => showPairs (sortPairs c))
+    s!"8.1;in={showPairs (sortPairs r.input)};back={covs r.back};look={covs r.look};subs={natsToString r.subs}"
 
 def encLen (b : Outcome Bytes) (n : Outcome Nat) : String :=
   match b, n with
@@ -223,6 +228,14 @@ def gsubEncode (st : String) (fs : List (String × String)) : String :=
       match (getField fs "subs").bind parseNatList with
       | some subs => encLen (Gsub.encode12 cov subs) (Gsub.encodeLen12 cov subs)
       | none => "bad-case"
+    else if st == "81" then
+      let covs := fun (k : String) => match getField fs k with
+        | some t => if t.isEmpty then some [] else
+            (t.splitOn "/").mapM fun q => if q == "e" then some [] else parseRuns q
+        | none => none
+      match covs "back", covs "look", (getField fs "subs").bind parseNatList with
+      | some bk, some lk, some subs => encLen (Gsub.encode81 cov bk lk subs) (Gsub.encodeLen81 cov bk lk subs)
+      | _, _, _ => "bad-case"
     else if st == "41" then
       match (getField fs "ligs").bind parseLigSets with
       | some repl => encLen (Gsub.encode41 cov repl) (Gsub.encodeLen41 cov repl)
@@ -342,6 +355,196 @@ def parseFL (s : String) : Option (List FL.Feature) :=
 def showFL (fl : List FL.Feature) : String :=
   "|".intercalate (fl.map fun f =>
     toHex f.tag ++ ":" ++ (if f.lookups.isEmpty then "-" else ".".intercalate (f.lookups.map toString)))
+
+/-! GPOS 2.2 / 3.1 / 4.1 / 6.1: anchors `x.y`, marks `class.x.y`, rows separated by `;` (`e` = empty row) -/
+
+def parseAnchor (s : String) : Option GposMark.Anchor :=
+  match s.splitOn "." with
+  | [x, y] => do let a ← x.toNat?; let b ← y.toNat?; pure (a, b)
+  | _ => none
+
+def showAnchor (a : GposMark.Anchor) : String := s!"{a.1}.{a.2}"
+
+def parseMarks (s : String) : Option (List GposMark.Mark) :=
+  if s.isEmpty then some [] else
+  (s.splitOn ",").mapM fun t =>
+    match t.splitOn "." with
+    | [c, x, y] => do let k ← c.toNat?; let a ← x.toNat?; let b ← y.toNat?; pure ⟨k, (a, b)⟩
+    | _ => none
+
+def parseRows (s : String) : Option (List (List GposMark.Anchor)) :=
+  if s.isEmpty then some [] else
+  (s.splitOn ";").mapM fun t => if t == "e" then some [] else (t.splitOn ",").mapM parseAnchor
+
+def showRows (rs : List (List GposMark.Anchor)) : String :=
+  ";".intercalate (rs.map fun r => if r.isEmpty then "e" else ",".intercalate (r.map showAnchor))
+
+def parseEE (s : String) : Option (List GposMark.EntryExit) :=
+  if s.isEmpty then some [] else
+  (s.splitOn ",").mapM fun t =>
+    match t.splitOn "." with
+    | [a, b, c, d] => do
+      let a ← a.toNat?; let b ← b.toNat?; let c ← c.toNat?; let d ← d.toNat?
+      pure ((a, b), (c, d))
+    | _ => none
+
+def parseRows22 (s : String) : Option (List GposMark.Row) :=
+  if s.isEmpty then some [] else
+  (s.splitOn ";").mapM fun t =>
+    if t == "e" then some [] else
+    (t.splitOn ",").mapM fun q =>
+      match q.splitOn "/" with
+      | [a, b] => do let v1 ← parseVR a; let v2 ← parseVR b; pure (v1, v2)
+      | _ => none
+
+def showRows22 (rs : List GposMark.Row) : String :=
+  ";".intercalate (rs.map fun r => if r.isEmpty then "e" else
+    ",".intercalate (r.map fun p => showVR p.1 ++ "/" ++ showVR p.2))
+
+@[noinline] def classPart22 (runs : List (Nat × Nat × Nat)) : GposMark.ClassPart :=
+  let arr := classArray runs
+  let lo := runs.foldl (fun a r => min a r.1) 0xFFFF
+  let hi := runs.foldl (fun a r => max a r.2.1) 0
+  let f := fun g => arr.getD g 0
+  ⟨ClassDef.appendF runs.isEmpty f lo hi, ClassDef.appendLenF runs.isEmpty f lo hi⟩
+
+def parseClass22 (s : Option String) : Option GposMark.ClassPart :=
+  match s with
+  | none => none
+  | some "empty" => some (classPart22 [])
+  | some t => (parseClassRuns t).map classPart22
+
+def gposMarkEncode (st : String) (fs : List (String × String)) : String :=
+  if st == "41" || st == "61" then
+    match (getField fs "mcov").bind parseRuns, (getField fs "bcov").bind parseRuns,
+        (getField fs "marks").bind parseMarks, (getField fs "bases").bind parseRows with
+    | some mc, some bc, some ms, some bs =>
+      encLen (GposMark.encode41 mc bc ms bs) (GposMark.encodeLen41 mc bc ms bs)
+    | _, _, _, _ => "bad-case"
+  else if st == "31" then
+    match (getField fs "cov").bind parseRuns, (getField fs "recs").bind parseEE with
+    | some cov, some recs => encLen (GposMark.encode31 cov recs) (GposMark.encodeLen31 cov recs)
+    | _, _ => "bad-case"
+  else
+    match (getField fs "cov").bind parseRuns, parseClass22 (getField fs "c1"), parseClass22 (getField fs "c2"),
+        (getField fs "rows").bind parseRows22 with
+    | some cov, some c1, some c2, some rows =>
+      encLen (GposMark.encode22 cov c1 c2 rows) (GposMark.encodeLen22 cov c1 c2 rows)
+    | _, _, _, _ => "bad-case"
+
+def gposMarkRead (tp : Nat) (d : Bytes) : String :=
+  match bytesToWords d with
+  | [] => "err:io"
+  | fmt :: _ =>
+    if (tp == 4 || tp == 6) && fmt == 1 then
+      showOutcome (fun (r : GposMark.MarkBase) =>
+        s!"{tp}.1;mcov={showPairs (sortPairs r.mcov)};bcov={showPairs (sortPairs r.bcov)};marks=" ++
+        ",".intercalate (r.marks.map fun m => s!"{m.cls}.{showAnchor m.anchor}") ++ ";bases=" ++ showRows r.bases)
+        (GposMark.read41 d)
+    else if tp == 3 && fmt == 1 then
+      showOutcome (fun (r : List (Nat × Nat) × List GposMark.EntryExit) =>
+        s!"3.1;cov={showPairs (sortPairs r.1)};recs=" ++
+        ",".intercalate (r.2.map fun e => showAnchor e.1 ++ "." ++ showAnchor e.2)) (GposMark.read31 d)
+    else if tp == 2 && fmt == 2 then
+      showOutcome (fun (r : GposMark.Read22) =>
+        s!"2.2;cov={natsToString (sortDedup r.cov)};c1={showClassRuns (entriesArray r.class1)};c2={showClassRuns (entriesArray r.class2)};rows={showRows22 r.rows}")
+        (GposMark.read22 d)
+    else "err:invalid"
+
+/-! contextual lookups: rule `b.b/i.i/l.l>s:l+s:l`, set = rules joined by `,` (`-` nil, `e` empty),
+sets joined by `|` -/
+
+def parseDots (s : String) : Option (List Nat) :=
+  if s.isEmpty then some [] else (s.splitOn ".").mapM String.toNat?
+
+def parseActions (s : String) : Option (List Ctx.Action) :=
+  if s.isEmpty then some [] else
+  (s.splitOn "+").mapM fun t =>
+    match t.splitOn ":" with
+    | [a, b] => do let x ← a.toNat?; let y ← b.toNat?; pure (x, y)
+    | _ => none
+
+def parseRule (s : String) : Option Ctx.Rule :=
+  match s.splitOn ">" with
+  | [seqs, acts] =>
+    match seqs.splitOn "/" with
+    | [b, i, l] => do
+      let bk ← parseDots b; let inp ← parseDots i; let lk ← parseDots l; let as ← parseActions acts
+      pure ⟨bk, inp, lk, as⟩
+    | _ => none
+  | _ => none
+
+def parseRuleSets (s : String) : Option (List (Option (List Ctx.Rule))) :=
+  if s.isEmpty then some [] else
+  (s.splitOn "|").mapM fun t =>
+    if t == "-" then some none
+    else if t == "e" then some (some [])
+    else ((t.splitOn ",").mapM parseRule).map some
+
+def showDots (l : List Nat) : String := ".".intercalate (l.map toString)
+def showActions (l : List Ctx.Action) : String := "+".intercalate (l.map fun a => s!"{a.1}:{a.2}")
+def showRule (r : Ctx.Rule) : String :=
+  s!"{showDots r.back}/{showDots r.input}/{showDots r.look}>{showActions r.actions}"
+def showRuleSets (l : List (Option (List Ctx.Rule))) : String :=
+  "|".intercalate (l.map fun s => match s with
+    | none => "-"
+    | some rs => if rs.isEmpty then "e" else ",".intercalate (rs.map showRule))
+
+def parseCovList (s : Option String) : Option (List (List Nat)) :=
+  match s with
+  | none => none
+  | some t => if t.isEmpty then some [] else
+      (t.splitOn "/").mapM fun q => if q == "e" then some [] else parseRuns q
+
+def showCovSets (l : List (List Nat)) : String :=
+  "/".intercalate (l.map fun c => natsToString (sortDedup c))
+
+@[noinline] def ctxClassPart (runs : List (Nat × Nat × Nat)) : Ctx.ClassPart :=
+  let arr := classArray runs
+  let lo := runs.foldl (fun a r => min a r.1) 0xFFFF
+  let hi := runs.foldl (fun a r => max a r.2.1) 0
+  let f := fun g => arr.getD g 0
+  ⟨ClassDef.appendF runs.isEmpty f lo hi, ClassDef.appendLenF runs.isEmpty f lo hi⟩
+
+def parseCtxClass (s : Option String) : Option Ctx.ClassPart :=
+  match s with
+  | none => none
+  | some "empty" => some (ctxClassPart [])
+  | some t => (parseClassRuns t).map ctxClassPart
+
+def ctxEncode (st : String) (fs : List (String × String)) : String :=
+  if st == "c3" then
+    match parseCovList (getField fs "covs"), (getField fs "acts").bind parseActions with
+    | some cs, some as => encLen (Ctx.encode3 cs as) (Ctx.encodeLen3 cs as)
+    | _, _ => "bad-case"
+  else if st == "C3" then
+    match parseCovList (getField fs "back"), parseCovList (getField fs "input"), parseCovList (getField fs "look"),
+        (getField fs "acts").bind parseActions with
+    | some b, some i, some l, some as => encLen (Ctx.encodeC3 b i l as) (Ctx.encodeLenC3 b i l as)
+    | _, _, _, _ => "bad-case"
+  else
+    match (getField fs "cov").bind parseRuns, (getField fs "sets").bind parseRuleSets with
+    | some cov, some sets =>
+      if st == "c1" then encLen (Ctx.encode1 cov sets) (Ctx.encodeLen1 cov sets)
+      else if st == "C1" then encLen (Ctx.encodeC1 cov sets) (Ctx.encodeLenC1 cov sets)
+      else if st == "c2" then
+        match parseCtxClass (getField fs "cd") with
+        | some cd => encLen (Ctx.encode2 cov cd sets) (Ctx.encodeLen2 cov cd sets)
+        | none => "bad-case"
+      else
+        match parseCtxClass (getField fs "cb"), parseCtxClass (getField fs "ci"), parseCtxClass (getField fs "cl") with
+        | some cb, some ci, some cl => encLen (Ctx.encodeC2 cov cb ci cl sets) (Ctx.encodeLenC2 cov cb ci cl sets)
+        | _, _, _ => "bad-case"
+    | _, _ => "bad-case"
+
+def showCtx : Ctx.Sub → String
+  | .c1 ch cov sets => s!"{if ch then 6 else 5}.1;cov={showPairs (sortPairs cov)};sets={showRuleSets sets}"
+  | .c2 ch cov cls sets =>
+    s!"{if ch then 6 else 5}.2;cov={showPairs (sortPairs cov)};classes=" ++
+      "/".intercalate (cls.map fun c => showClassRuns (entriesArray c)) ++ s!";sets={showRuleSets sets}"
+  | .c3 b i l as ch =>
+    if ch then s!"6.3;back={showCovSets b};in={showCovSets i};look={showCovSets l};acts={showActions as}"
+    else s!"5.3;covs={showCovSets i};acts={showActions as}"
 
 /-! GDEF: `gc=<class runs>|empty|-`, `mac=…`, `sets=-|none|<runs>;<runs>;…` (`e` = empty set) -/
 
@@ -506,7 +709,7 @@ def handle (op : String) (fs : List (String × String)) : String :=
     | _, _ => "bad-case"
   else if op == "otl.gsub.encode" then
     match getField fs "st" with
-    | some st => gsubEncode st fs
+    | some st => if st.startsWith "c" || st.startsWith "C" then ctxEncode st fs else gsubEncode st fs
     | none => "bad-case"
   else if op == "otl.gsub.prop" then
     match getField fs "st" with
@@ -557,15 +760,20 @@ def handle (op : String) (fs : List (String × String)) : String :=
     | none => "bad-case"
   else if op == "otl.gpos.encode" then
     match getField fs "st" with
-    | some st => gposEncode st fs
+    | some st => if st == "11" || st == "12" || st == "21" then gposEncode st fs else gposMarkEncode st fs
     | none => "bad-case"
   else if op == "otl.gpos.read" then
     match (getField fs "type").bind String.toNat?, (getField fs "data").bind fromHex with
-    | some tp, some d => showOutcome showGposSub (Gpos.readSubtable tp d)
+    | some tp, some d =>
+      let fmt := (bytesToWords d).headD 0
+      if tp == 1 || (tp == 2 && fmt != 2) then showOutcome showGposSub (Gpos.readSubtable tp d)
+      else gposMarkRead tp d
     | _, _ => "bad-case"
   else if op == "otl.gsub.read" then
     match (getField fs "type").bind String.toNat?, (getField fs "data").bind fromHex with
-    | some tp, some d => showOutcome showSub (Gsub.readSubtable tp d)
+    | some tp, some d =>
+      if tp == 5 || tp == 6 then showOutcome showCtx (Ctx.readSubtable tp d)
+      else showOutcome showSub (Gsub.readSubtable tp d)
     | _, _ => "bad-case"
   else "bad-op"
 
